@@ -289,6 +289,117 @@ func runLock(cfg *config) {
 		cfg.tr.Tilde(out)
 		cfg.st.Inc("close-during-statement")
 	}
+	// an open that fails after the store was started (the log cannot be opened) must leave nothing
+	// running: a forgotten store would keep writing its stale header into the file every 100 ms
+	{
+		cfg.tr.Op("failed-open")
+		out := "ok"
+		wdog.Run(func() {
+			if pm := hx.Catch(func() {
+				step := func(q string) bool {
+					if err := sess.ExecQuery(q); err != nil {
+						qq := q
+						if len(qq) > 30 {
+							qq = qq[:30]
+						}
+						out = "damaged: " + qq + ": " + err.Error()
+						return false
+					}
+					return true
+				}
+				if err := storage.CreateDB("orph"); err != nil && err != storage.ErrDBExists {
+					out = "setup: " + err.Error()
+					return
+				}
+				if !step("USE orph") || !step("CREATE TABLE o1 (a int, b varchar(255))") || !step("INSERT INTO o1 VALUES (1, 'a')") || !step("USE lk") {
+					return
+				}
+				// the log file is out of reach for one USE
+				os.Rename("data/orph/wal", "data/orph/wal.keep")
+				os.Mkdir("data/orph/wal", 0755)
+				failed := sess.ExecQuery("USE orph") != nil
+				os.Remove("data/orph/wal")
+				os.Rename("data/orph/wal.keep", "data/orph/wal")
+				if !failed {
+					out = "setup: the open did not fail"
+					return
+				}
+				if !step("USE orph") {
+					return
+				}
+				for k := 0; k < 40; k++ {
+					if !step(fmt.Sprintf("INSERT INTO o1 VALUES (%d, 'row')", 100+k)) {
+						return
+					}
+				}
+				if !step("USE lk") {
+					return
+				}
+				time.Sleep(260 * time.Millisecond)
+				if !step("USE orph") || !step("INSERT INTO o1 VALUES (999, 'after')") {
+					return
+				}
+				if rows, _, err := sess.RelationService.Fetch("o1"); err != nil || len(rows) != 42 {
+					out = fmt.Sprintf("damaged: %d rows, want 42 (%v)", len(rows), err)
+				}
+				step("USE lk")
+			}); pm != "" {
+				out = "damaged: panic " + pm
+			}
+		})
+		if len(out) > 140 {
+			out = out[:140]
+		}
+		cfg.tr.Tilde(strings.ReplaceAll(out, "\n", " "))
+		cfg.st.Inc("failed-open")
+	}
+	// the same for CREATE TABLE, which changes the catalog and then flushes: a Close that arrives
+	// between the two must not flush the new table and then make the statement fail
+	{
+		var once int32
+		closed := make(chan struct{})
+		storage.VerifSetHook(func(ev string, arg uint64) {
+			if ev == "ddl.changed" && atomic.CompareAndSwapInt32(&once, 0, 1) {
+				go func() { hx.Catch(func() { sess.Close() }); close(closed) }()
+				time.Sleep(150 * time.Millisecond)
+			}
+		})
+		cfg.tr.Op("close-during-create-table")
+		out := ""
+		wdog.Run(func() {
+			r := "ok"
+			if pm := hx.Catch(func() {
+				if err := sess.ExecQuery("CREATE TABLE c2 (a int, b varchar(255))"); err != nil {
+					r = "err"
+				}
+			}); pm != "" {
+				r = "panic"
+			}
+			if atomic.LoadInt32(&once) == 0 {
+				out = "hook point not reached"
+				return
+			}
+			<-closed
+			storage.VerifSetHook(nil)
+			if err := storage.InitStorage(); err != nil {
+				out = fmt.Sprintf("stmt=%s recovery failed", r)
+				return
+			}
+			sess = &engine.Session{}
+			if err := sess.ExecQuery("USE lk"); err != nil {
+				out = fmt.Sprintf("stmt=%s use failed", r)
+				return
+			}
+			if _, _, err := sess.RelationService.Fetch("c2"); err != nil {
+				out = fmt.Sprintf("stmt=%s table=absent", r)
+			} else {
+				out = fmt.Sprintf("stmt=%s table=present", r)
+			}
+		})
+		storage.VerifSetHook(nil)
+		cfg.tr.Tilde(out)
+		cfg.st.Inc("close-during-create-table")
+	}
 	rounds := 2 * cfg.scale
 	for i := 0; i < rounds; i++ {
 		park("insert", fmt.Sprintf("INSERT INTO t VALUES (%d, 'x'), (%d, 'y'), (%d, 'z')", 3*i, 3*i+1, 3*i+2))
